@@ -135,8 +135,8 @@ fn prove_with_hint<S: Setup>(
 /// decompose_to_bits(x, n) with the bits of x + k·p.
 /// `nonbool = Some((j, i))`: instead of the bits of x + k·p, the canonical bits with bit `i` flipped
 /// and bit `j` set to the (non-boolean) field element that restores the recomposition identity.
-fn bits_case<S: Setup>(x: u64, class: &str, n: usize, k: u64, use_bits: u32, nonbool: Option<(usize, usize)>, forge_rows: bool) -> CaseResult {
-    let key = format!("{}:bits:{class}:n{n}:k{k}:use{use_bits}:nb{nonbool:?}:forge{forge_rows}", S::NAME);
+fn bits_case<S: Setup>(x: u64, class: &str, n: usize, k: u64, use_bits: u32, nonbool: Option<(usize, usize)>, forge_rows: bool, ext_kind: u8) -> CaseResult {
+    let key = format!("{}:bits:{class}:n{n}:k{k}:use{use_bits}:nb{nonbool:?}:forge{forge_rows}:ext{ext_kind}", S::NAME);
     let k = if nonbool.is_some() { 0 } else { k };
     let p = S::order() as u128;
     let alt_val = x as u128 + k as u128 * p;
@@ -182,11 +182,29 @@ fn bits_case<S: Setup>(x: u64, class: &str, n: usize, k: u64, use_bits: u32, non
         alt_bits = c.clone();
         let two = S::E::ONE + S::E::ONE;
         let pow = |e: usize| (0..e).fold(S::E::ONE, |a, _| a * two);
+        if ext_kind > 0 {
+            // extension-valued "bits": bit i gets + t, bit j gets - t * 2^i / 2^j, where t has a zero
+            // constant coefficient and higher limbs (d, -d, 0, ..) [cancelling] or (d, 0, ..) [single]
+            if S::D < 2 || (ext_kind == 1 && S::D < 3) {
+                return CaseResult::held(key, false).count("bits/nonbase-not-applicable", 1);
+            }
+            let d = 1 + (x % 1000) + 13 * i as u64;
+            let mut tc = vec![0u64; S::D];
+            tc[1] = d;
+            if ext_kind == 1 {
+                tc[2] = S::order() - d;
+            }
+            let t = S::el(&tc);
+            alt_bits[i] = c[i] + t;
+            alt_bits[j] = c[j] - t * pow(i) * pow(j).inverse();
+            nb_class = if ext_kind == 1 { "cancelling-limbs" } else { "single-limb" };
+        } else {
         let flipped = if c[i] == S::E::ZERO { S::E::ONE } else { S::E::ZERO };
         let delta = (flipped - c[i]) * pow(i);
         alt_bits[i] = flipped;
         alt_bits[j] = c[j] - delta * pow(j).inverse();
         nb_class = if j == 0 { "lsb" } else if j == n - 1 { "msb" } else { "inner" };
+        }
     }
     if canon.as_ref() == Some(&alt_bits) {
         return CaseResult::held(key, false).count("bits/alternative-equals-canonical", 1);
@@ -216,11 +234,11 @@ fn bits_case<S: Setup>(x: u64, class: &str, n: usize, k: u64, use_bits: u32, non
         Outcome::Accepted => CaseResult::violated(
             key,
             if nonbool.is_some() {
-                format!("noncanonical-accepted/bits/nonboolean-bit/{nb_class}{}", if forge_rows { "+forged-boolcheck-row" } else { "" })
+                format!("noncanonical-accepted/bits/{}/{nb_class}{}", if ext_kind > 0 { "nonbase-bit" } else { "nonboolean-bit" }, if forge_rows { "+forged-boolcheck-row" } else { "" })
             } else {
                 format!("noncanonical-accepted/bits/{}-bit-limb{}", limb_bits::<S>(), if full_width { "" } else { "/narrow-width" })
             },
-            json!({"setup": S::NAME, "gadget": "decompose_to_bits", "x": x, "n_bits": n, "k": k, "use": use_bits, "nonbool": nonbool.map(|(j, i)| vec![j, i]), "forged_boolcheck_rows": forge_rows,
+            json!({"setup": S::NAME, "gadget": "decompose_to_bits", "x": x, "n_bits": n, "k": k, "use": use_bits, "nonbool": nonbool.map(|(j, i)| vec![j, i]), "forged_boolcheck_rows": forge_rows, "ext_kind": ext_kind,
                    "alternative_value": alt_val.to_string(), "observable_output_differs_from_canonical": differs_from_canonical}),
         ),
         Outcome::NoAlternative => CaseResult::inconclusive(key, "hint op not found"),
@@ -354,10 +372,14 @@ fn case<S: Setup>(seed: u64, idx: usize, _tier: Tier) -> Vec<CaseResult> {
             None
         };
         let use_bits = rng.random_range(0..3);
-        let r = bits_case::<S>(x, class, n, k, use_bits, nonbool, false);
+        let r = bits_case::<S>(x, class, n, k, use_bits, nonbool, false, 0);
         if nonbool.is_some() {
             // the same deviation by a prover that also writes the ALU trace itself
-            out.push(bits_case::<S>(x, class, n, k, use_bits, nonbool, true));
+            out.push(bits_case::<S>(x, class, n, k, use_bits, nonbool, true, 0));
+            // extension-valued bits (higher limbs that cancel within the element / a single higher limb)
+            if S::D >= 2 {
+                out.push(bits_case::<S>(x, class, n, k, use_bits, nonbool, false, 1 + (idx as u8 / 3) % 2));
+            }
         }
         out.push(if idx < 8 {
             r.with_sample(json!({"setup": S::NAME, "gadget": "decompose_to_bits", "x": x, "class": class, "n": n, "k": k}))
@@ -384,6 +406,7 @@ fn replay(d: &Value) -> Vec<CaseResult> {
                 d["use"].as_u64().unwrap() as u32,
                 d["nonbool"].as_array().map(|a| (a[0].as_u64().unwrap() as usize, a[1].as_u64().unwrap() as usize)),
                 d["forged_boolcheck_rows"].as_bool().unwrap_or(false),
+                d["ext_kind"].as_u64().unwrap_or(0) as u8,
             )]
         } else {
             let mut rng = case_rng(0, "c12-replay", 0);
